@@ -228,7 +228,7 @@ func (g *Gen) callInner(in ssa.Instruction, c *ssa.CallCommon, rt types.Type) Va
 				}
 				g.heap = g.heap.clone()
 				g.heapSet(g.heap, hn, "(Array Int Bool)", "(store "+cur+" "+p.Idx[0]+" "+val+")")
-				g.addAssumption("track-locks: Lock/Unlock only set a ghost held bit (mutual exclusion itself is assumed)")
+				g.addAssumption("track-locks: Lock/Unlock only set a ghost held bit (mutual exclusion itself is assumed); code without contract called in between is assumed not to release or take the caller's locks")
 				return Val{K: kUntyped}
 			}
 		}
